@@ -10,6 +10,13 @@ from collections import namedtuple
 from wa.mir import AnchorMissing, ShapeNotRecognised, operand_alias, callee_of
 from wa.expr import Exprs, show_expr, root_local, strip_refs
 from wa.flow import forward_states
+from wa.cond import canon
+
+
+def _ck(terms):
+    """Affine-form terms keyed without reference/dereference nodes (for comparison only)."""
+    return {canon(k): v for k, v in terms.items()}
+
 
 CLONE = "<board::BoardState as std::clone::Clone>::clone"
 PUSH_SUFFIX = "Vec::<T, A>::push"
@@ -21,8 +28,8 @@ IS_CHECK = "move_generation::is_check"
 CAN_CASTLE = "move_generation::can_castle"
 GEN_ROOT = "move_generation::generate_moves"
 
-St = namedtuple("St", "swaps last_move promo ep_resolved ep_cleared gate sqw pub")
-FRESH = St(0, False, False, False, False, False, 0, 0)
+St = namedtuple("St", "swaps last_move promo ep_resolved ep_cleared gate sqw pub wv")
+FRESH = St(0, False, False, False, False, False, 0, 0, frozenset())
 
 
 def cone(facts, root):
@@ -56,7 +63,9 @@ class Site:
         self.events = {}      # loc -> list of events
         self.gate_edges = {}  # (bb, succ) -> color expr
         self.publishes = []   # (loc, kind, callee)
+        self.wrappers, self.wdefs = {}, {}
         self._collect()
+        self._collect_wrappers()
 
     def ordinal(self):
         # n-th clone site in the function, in block order (stable under line shifts)
@@ -74,6 +83,13 @@ class Site:
             callee = callee_of(t)
             for i, a in enumerate(t["args"]):
                 al = operand_alias(b, a)
+                if al is not None and al[0] != L and not al[2]:
+                    # the object may have been moved into another local (out of the `Option` a helper
+                    # handed it back in): a reference to / move of that local is one of the object
+                    from wa.mir import alias_of as _ao
+                    r2 = _ao(b, al[0])
+                    if r2[1] == "val" and not r2[2] and r2[0] == L and al[0] != L:
+                        al = (L, al[1], al[2])
                 if al is None or al[0] != L:
                     continue
                 root, mode, proj = al
@@ -115,7 +131,56 @@ class Site:
                         if tg != true_target:
                             self.gate_edges[(bb, tg)] = d[2][1]
 
+    def _collect_wrappers(self):
+        """Path correlation through wrapper values: a helper that hands the successor back as
+        `Option<BoardState>` assigns `Some(L)` on one path and `None` on another, and the caller
+        branches on the discriminant.  The variant last stored in the wrapper is part of the typestate
+        and refutes the caller's edge for the other variant (otherwise the state of the `None` path would
+        reach the publish behind `Some`)."""
+        from wa.mir import alias_of
+        b = self.b
+        self.wrappers = {}   # switch bb -> (R, {succ: set(discriminant values) or None for otherwise})
+        self.wdefs = {}      # loc -> (R, variant index or None)
+        roots = set()
+        for bb in b.normal:
+            t = b.term(bb)
+            if bb not in b.reachable or t["k"] != "switch" or t["discr"].get("k") not in ("copy", "move"):
+                continue
+            dl = t["discr"]["place"]["local"]
+            # the switch operand is `_d = discriminant(X)`
+            defs = [(loc, k) for loc, k in b.reaching().all_sites(dl) if k == "whole"]
+            if len(defs) != 1:
+                continue
+            (dbb, di), _ = defs[0]
+            st = b.stmts(dbb)
+            if di >= len(st) or st[di]["rv"]["k"] != "discr" or st[di]["rv"]["place"]["proj"]:
+                continue
+            X = st[di]["rv"]["place"]["local"]
+            R = alias_of(b, X)
+            if R[1] != "val" or R[2]:
+                continue
+            R = R[0]
+            listed = [v for v, _ in t["cases"]]
+            edges = {}
+            for v, tg in t["cases"]:
+                edges.setdefault(tg, set()).add(v)
+            edges.setdefault(t["otherwise"], set())
+            self.wrappers[bb] = (R, edges, listed, t["otherwise"])
+            roots.add(R)
+        for loc, st in b.iter_stmts():
+            if st["k"] == "assign" and not st["place"]["proj"] and st["place"]["local"] in roots:
+                rv = st["rv"]
+                vi = rv.get("vi") if rv["k"] == "aggregate" and rv.get("agg") == "adt" else None
+                self.wdefs[loc] = (st["place"]["local"], vi)
+        for bb, t in b.iter_calls():
+            if not t["dest"]["proj"] and t["dest"]["local"] in roots:
+                self.wdefs[b.term_loc(bb)] = (t["dest"]["local"], None)
+
     def step(self, loc, s):
+        wd = self.wdefs.get(loc)
+        if wd is not None:
+            R, vi = wd
+            s = s._replace(wv=frozenset([x for x in s.wv if x[0] != R] + ([(R, vi)] if vi is not None else [])))
         for ev in self.events.get(loc, ()):
             k = ev[0]
             if k == "call":
@@ -156,6 +221,15 @@ class Site:
         return [s]
 
     def edge_step(self, bb, succ, s):
+        w = self.wrappers.get(bb)
+        if w is not None:
+            R, edges, listed, otherwise = w
+            cur = dict(s.wv).get(R)
+            if cur is not None:
+                vals = edges.get(succ, set())
+                feasible = (cur in vals) or (succ == otherwise and cur not in listed)
+                if not feasible:
+                    return []
         if (bb, succ) in self.gate_edges:
             s = s._replace(gate="is_check")
         return [s]
@@ -544,7 +618,7 @@ def r2_7(ctx):
                         ok1 = False
                         if len(idx) == 2:
                             lr, lc = linear(idx[0]), linear(idx[1])
-                            ok1 = lr is not None and lc is not None and lr[0] == {("field", to, "0"): 1} and lr[1] == -chess.PAWN[mover]["dir"] and lc[0] == {("field", to, "1"): 1} and lc[1] == 0
+                            ok1 = lr is not None and lc is not None and _ck(lr[0]) == {canon(("field", to, "0")): 1} and lr[1] == -chess.PAWN[mover]["dir"] and _ck(lc[0]) == {canon(("field", to, "1")): 1} and lc[1] == 0
                         okp = okp and ok1
                     ctx.ob("%s:ep-removes-the-passed-pawn:%s" % (site.name, mover), found > 0 and okp, b.where(where),
                            "the square emptied by the en-passant capture is (target.row %+d, target.col) for a %s capturer: one step behind the target%s" % (
